@@ -870,6 +870,16 @@ func runC02(r *fw.Run) {
 				cs.Seg, cs.SegS = seg, rng.Int63()
 				cc.Conns = append(cc.Conns, &cs)
 			}
+			if k%3 == 1 && (seg == 0 || seg == 2) {
+				// other clients die inside a message that is already larger than any internal buffer: what the three judged
+				// streams mean must depend on their own bytes only (seeded change C02-O)
+				for j := 0; j < 10; j++ {
+					half := &CallScript{ID: fmt.Sprintf("half%d.%d.%d", k, seg, j), Pad: json.RawMessage(jg.BigString(9000 + j*7000)), Steps: []Step{{Op: "reply", NoPar: true}}}
+					data, _, _ := streamOf([]GenCall{{Method: "org.example.script.Half", Script: half}}, 0)
+					cc.Conns = append(cc.Conns, &ConnScript{Stream: data, Cut: 4200 + rng.Intn(len(data)-4300), Hard: j%2 == 0, Seg: []int{0, 2}[j%2], SegS: rng.Int63(), What: "abort-inside-a-large-message"})
+				}
+				r.Count("aborts_inside_a_large_message", 10)
+			}
 			r.Journal(0, map[string]interface{}{"what": "service reception, 3 concurrent connections", "seg": seg})
 			c01Round(r, g, "C02", cc, true)
 			r.Done(0)
